@@ -139,9 +139,16 @@ func (r verifRuleV) matches(t verifTraceV) bool {
 	return all
 }
 
-func (t verifTraceV) build(cfg config.Config) *types.Trace {
+func (t verifTraceV) build(cfg config.Config) *types.Trace { return t.buildOrder(cfg, false) }
+
+func (t verifTraceV) buildOrder(cfg config.Config, reversed bool) *types.Trace {
 	tr := &types.Trace{TraceID: "T"}
-	for i, sv := range t.spans {
+	for j := range t.spans {
+		i := j
+		if reversed {
+			i = len(t.spans) - 1 - j
+		}
+		sv := t.spans[i]
 		m := map[string]any{"other": int64(1)}
 		if sv.hasA {
 			m["a"] = sv.a
@@ -179,7 +186,7 @@ func verifScope(tag string) string {
 // and !=, root. prefix, Fields with and without root., has-root-span, ?.NUM_DESCENDANTS), every
 // scope, against a trace of two spans with every presence pattern of the fields, every root
 // position (or none) and symbolic field values: the outcome equals the documented semantics.
-func Harness_C08_C28_structure() {
+func Harness_C08_C09_C28_structure() {
 	zz.MustCover("(*github.com/honeycombio/refinery/sample.RulesBasedSampler).GetSampleRate",
 		"github.com/honeycombio/refinery/sample.ruleMatchesTrace",
 		"github.com/honeycombio/refinery/sample.ruleMatchesSpanInTrace",
@@ -215,6 +222,9 @@ func Harness_C08_C28_structure() {
 
 	rate, keep, reason, _ := s.GetSampleRate(tv.build(cfg))
 	want := rv.matches(tv)
+	rate2, keep2, reason2, _ := s.GetSampleRate(tv.buildOrder(cfg, true))
+	zz.Assert(zz.And(rate2 == rate, reason2 == reason), "[C09] the rule applied does not depend on the order in which the spans arrived")
+	zz.Assert(zz.Or(keep2 == keep, rate > 1), "[C09] the decision does not depend on the order in which the spans arrived (up to the rule's random draw)")
 	zz.Observe("rate", rate)
 	zz.Observe("matched", reason != "no rule matched")
 	if want {
